@@ -35,6 +35,7 @@ type Prog struct {
 	Code   [][]Op   `json:"code"`
 	Shape  string   `json:"shape"`
 	Yield  int      `json:"yield"` // percent of operations followed by (vyield)
+	Slow   int      `json:"slow"`  // routine that is held back by short sleeps (priority perturbation), -1 none
 	Procs  int      `json:"procs"` // GOMAXPROCS
 }
 
@@ -164,14 +165,15 @@ func cellWrite(kind string, x int, job int, e string) string {
 type renderer struct {
 	p     *Prog
 	job   int
-	yield func() bool
+	rid   int
+	after func(rid int) string // text inserted after an operation of routine rid: "", " (vyield)", " (vpause n)"
 }
 
 func (rd *renderer) ops(b *strings.Builder, ops []Op) {
 	for _, o := range ops {
 		rd.op(b, o)
-		if rd.yield != nil && rd.yield() {
-			b.WriteString(" (vyield)")
+		if rd.after != nil {
+			b.WriteString(rd.after(rd.rid))
 		}
 	}
 }
@@ -226,7 +228,7 @@ func (rd *renderer) op(b *strings.Builder, o Op) {
 // Lisp renders the program: setup forms (evaluated one after the other before any routine starts, in the
 // scope that holds the channels, mutexes and objects), one (run ...) form per routine, and the forms that
 // read the cells and the channel lengths afterwards.
-func (p *Prog) Lisp(job int, yield func() bool) (setup []string, runs []string, finals []string) {
+func (p *Prog) Lisp(job int, after func(rid int) string) (setup []string, runs []string, finals []string) {
 	for x, kind := range p.Cells {
 		switch kind {
 		case "global":
@@ -240,8 +242,9 @@ func (p *Prog) Lisp(job int, yield func() bool) (setup []string, runs []string, 
 		}
 		finals = append(finals, cellRead(kind, x, job))
 	}
-	rd := &renderer{p: p, job: job, yield: yield}
+	rd := &renderer{p: p, job: job, after: after}
 	for i, r := range p.Code {
+		rd.rid = i
 		var b strings.Builder
 		b.WriteString("(run (let ((got nil) (acc 0) (log nil))")
 		rd.ops(&b, r)
